@@ -394,4 +394,103 @@ theorem immTok_neg_hex (s : Instr) (k n : Nat) (hn : n < 2 ^ 64) :
   rw [this]
   simp [h1, h1', h2]
 
+/-! ### decimal numerals with leading zeros (base 10 is chosen by `imm_tok`, never octal) -/
+
+/-- the decimal digits of `n` with `k` extra leading zeros -/
+def decDigs (k n : Nat) : Str := (List.replicate k 0 ++ digs 10 20 n).map digitCh
+
+theorem decDigs_zero (n : Nat) : decDigs 0 n = decStr n := by simp [decDigs, decStr]
+
+theorem decDigs_props (k n : Nat) (hn : n < 2 ^ 64) :
+    (∀ d ∈ List.replicate k 0 ++ digs 10 20 n, d < 10) ∧
+    (List.replicate k 0 ++ digs 10 20 n).foldl (fun a d => a * 10 + d) 0 = n ∧
+    List.replicate k 0 ++ digs 10 20 n ≠ [] := by
+  refine ⟨?_, ?_, ?_⟩
+  · intro d hd
+    rw [List.mem_append] at hd
+    rcases hd with hd | hd
+    · rw [List.mem_replicate] at hd; omega
+    · exact digs_lt 10 (by decide) 20 n d hd
+  · rw [foldl_zeros]
+    exact digVal_digs 10 (by decide) 20 n (Nat.lt_trans hn two64_lt_10_20)
+  · intro h
+    have := digs_ne_nil 10 19 n
+    rw [List.append_eq_nil_iff] at h
+    exact this h.2
+
+theorem digitsVal_decDigs (k n : Nat) (hn : n < 2 ^ 64) : digitsVal 10 0 false (decDigs k n) = (n, [], true) := by
+  obtain ⟨hlt, hval, hne⟩ := decDigs_props k n hn
+  unfold decDigs
+  rw [digitsVal_digits 10 (by decide) _ hlt 0 false, hval]
+  cases hl : List.replicate k 0 ++ digs 10 20 n with
+  | nil => exact absurd hl hne
+  | cons a b => simp
+
+theorem decDigs_head (k n : Nat) (hn : n < 2 ^ 64) : ∃ d rest, d < 10 ∧ decDigs k n = digitCh d :: rest := by
+  obtain ⟨hlt, _, hne⟩ := decDigs_props k n hn
+  unfold decDigs
+  cases hl : List.replicate k 0 ++ digs 10 20 n with
+  | nil => exact absurd hl hne
+  | cons a b => exact ⟨a, b.map digitCh, hlt a (by rw [hl]; exact List.mem_cons_self), rfl⟩
+
+/-- **decimal with leading zeros**: still the decimal value (never octal), everything consumed -/
+theorem strtoul_dec_pad (k n : Nat) (hn : n < 2 ^ 64) : strtoulEnd (decDigs k n) 10 = (n, [], true) := by
+  obtain ⟨d, rest, hd, hds⟩ := decDigs_head k n hn
+  have hbody := digitsVal_decDigs k n hn
+  unfold strtoulEnd
+  rw [hds, dropWhile_space_digit d (by omega), stripSign_digit d (by omega), ← hds]
+  simp only [show ((10 : Nat) == 16) = false by decide, Bool.false_eq_true, if_false]
+  rw [hbody, strtoulResult_small false n hn]
+  simp
+
+theorem strtoul_neg_dec_pad (k n : Nat) (hn : n < 2 ^ 64) :
+    strtoulEnd (45 :: decDigs k n) 10 = ((2 ^ 64 - n) % 2 ^ 64, [], true) := by
+  unfold strtoulEnd
+  have h0 : (45 :: decDigs k n).dropWhile isSpaceC = 45 :: decDigs k n := by simp [List.dropWhile, isSpaceC]
+  have hs : stripSign (45 :: decDigs k n) = (true, decDigs k n) := by unfold stripSign; rfl
+  rw [h0, hs]
+  simp only [show ((10 : Nat) == 16) = false by decide, Bool.false_eq_true, if_false]
+  rw [digitsVal_decDigs k n hn, strtoulResult_small true n hn]
+  simp
+
+theorem decDigs_chars (k n : Nat) (hn : n < 2 ^ 64) : ∀ c ∈ decDigs k n, c ≠ 120 ∧ c ≠ 32 := by
+  intro c hc
+  unfold decDigs at hc
+  rw [List.mem_map] at hc
+  obtain ⟨d, hd, rfl⟩ := hc
+  have := digitCh_bounds d (Nat.lt_trans ((decDigs_props k n hn).1 d hd) (by decide))
+  exact ⟨this.1, this.2.1⟩
+
+/-- **a decimal immediate written with `k` leading zeros**: imm_tok yields the decimal number -/
+theorem immTok_dec_pad (s : Instr) (k n : Nat) (hn : n < 2 ^ 64) :
+    immTok s (decDigs k n) = .ok { s with imm := true, narrowOk := true, cons := n } := by
+  obtain ⟨d, rest, hd, hds⟩ := decDigs_head k n hn
+  have hch := decDigs_chars k n hn
+  have h1 : (chAt (decDigs k n) 1 == 120) = false := by
+    rw [beq_eq_false_iff_ne]; exact chAt_ne _ 1 120 (by decide) (fun c hc => (hch c hc).1)
+  have h2 : (chAt (decDigs k n) 2 == 120) = false := by
+    rw [beq_eq_false_iff_ne]; exact chAt_ne _ 2 120 (by decide) (fun c hc => (hch c hc).1)
+  have := immTok_of_strtoul s (decDigs k n) (by rw [hds]; simp) (fun c hc => (hch c hc).2) n
+    (by simp only [h1, h2, Bool.and_false, Bool.or_false, Bool.false_eq_true, if_false]; exact strtoul_dec_pad k n hn)
+  rw [this]
+  simp [h1, h2]
+
+theorem immTok_neg_dec_pad (s : Instr) (k n : Nat) (hn : n < 2 ^ 64) :
+    immTok s (45 :: decDigs k n) = .ok { s with imm := true, narrowOk := true, cons := (2 ^ 64 - n) % 2 ^ 64 } := by
+  have hch := decDigs_chars k n hn
+  have hall : ∀ c ∈ (45 :: decDigs k n), c ≠ 120 ∧ c ≠ 32 := by
+    intro c hc
+    rw [List.mem_cons] at hc
+    rcases hc with rfl | hc
+    · decide
+    · exact hch c hc
+  have h1 : (chAt (45 :: decDigs k n) 1 == 120) = false := by
+    rw [beq_eq_false_iff_ne]; exact chAt_ne _ 1 120 (by decide) (fun c hc => (hall c hc).1)
+  have h2 : (chAt (45 :: decDigs k n) 2 == 120) = false := by
+    rw [beq_eq_false_iff_ne]; exact chAt_ne _ 2 120 (by decide) (fun c hc => (hall c hc).1)
+  have := immTok_of_strtoul s (45 :: decDigs k n) (by simp) (fun c hc => (hall c hc).2) ((2 ^ 64 - n) % 2 ^ 64)
+    (by simp only [h1, h2, Bool.and_false, Bool.or_false, Bool.false_eq_true, if_false]; exact strtoul_neg_dec_pad k n hn)
+  rw [this]
+  simp [h1, h2]
+
 end AL.Lemmas
